@@ -9,7 +9,8 @@ for d in sorted(glob.glob('/verif/seeded/*')):
     green = [k for k, v in chk.items() if v.get('exit') == 0]
     summ = re.sub(r'\s+', ' ', m['summary']).replace('|', '/')[:170]
     missed = False
-    for h in m.get('history', []):
+    hist = m.get('history', [])
+    for h in ([hist] if isinstance(hist, str) else hist):
         if isinstance(h, str):
             missed = True  # hand-written note of rounds 1-2: the seed was missed and a check strengthened
         elif (h.get('checks_against_patch') or {}).get(m['property'], {}).get('exit') == 0:
